@@ -228,33 +228,44 @@ def r2_components(ctx, g, handlers):
         bad_lits, n_tok = set(), 0
         for sp in symex.func_sym_paths(eb0):
             tests = {src(n_): t for n_, t in sp.conds}
-            if eq_mandatory and tests.get('ctx.EQUAL(0)') is False:
+            if eq_mandatory and (tests.get('ctx.EQUAL(0)') is False or F.forced(sp.condition(), 'ctx.EQUAL(0)', False)):
                 continue            # the grammar starts every barline with '=': this path is never taken
             made = [e.expr for e in sp.events if e.kind in ('store', 'assign') and isinstance(e.expr, ast.Call) and F.is_name(e.expr.func, 'BarToken')
                     and e.expr.args]
             if not made:
                 continue
-            parts = F.text_parts(made[-1].args[0])
-            # a comparison of the assembled text with a spelling that cannot match its literal beginning is decided
-            feasible = True
-            for n_, t in sp.conds:
-                if isinstance(n_, ast.Compare) and len(n_.ops) == 1 and isinstance(n_.ops[0], (ast.Eq, ast.NotEq)) \
-                        and isinstance(n_.comparators[0], ast.Constant) and isinstance(n_.comparators[0].value, str):
-                    lp = F.text_parts(n_.left)
-                    k = n_.comparators[0].value
-                    if lp and lp[0][0] == 'lit':
-                        lead = lp[0][1]
-                        can_equal = k.startswith(lead) if len(lp) > 1 else k == lead
-                        if not can_equal and (isinstance(n_.ops[0], ast.Eq)) == t:
-                            feasible = False
-            if not feasible:
-                continue
-            n_tok += 1
-            for kind, text in parts:
-                if kind == 'lit' and text not in ('=', '=='):
-                    bad_lits.add(text)
-                if kind == 'expr' and not (text.startswith('ctx.') and text.endswith('.getText()')):
-                    bad_lits.add(text[:40])
+            # `TABLE.get(text, text)` with a constant table is the chain `v1 if text == k1 else ... else text`
+            a0 = F.joined_text(sp, made[-1].args[0])
+            alts = [([], a0)]
+            if isinstance(a0, ast.Call) and isinstance(a0.func, ast.Attribute) and a0.func.attr == 'get' and len(a0.args) == 2 and not a0.keywords:
+                ok_t, table = ctx.ce.try_eval(a0.func.value, eb0.module, eb0.cls, {})
+                if ok_t and isinstance(table, dict) and all(isinstance(k_, str) and isinstance(v_, str) for k_, v_ in table.items()):
+                    key_t, dflt = F.joined_text(sp, a0.args[0]), F.joined_text(sp, a0.args[1])
+                    alts = [([(ast.Compare(left=key_t, ops=[ast.Eq()], comparators=[ast.Constant(value=k_)]), True)], ast.Constant(value=v_))
+                            for k_, v_ in table.items()]
+                    alts.append(([(ast.Compare(left=key_t, ops=[ast.Eq()], comparators=[ast.Constant(value=k_)]), False) for k_ in table], dflt))
+            for extra, text_node in alts:
+                parts = F.text_parts(text_node)
+                # a comparison of the assembled text with a spelling that cannot match its literal beginning is decided
+                feasible = True
+                for n_, t in list(sp.conds) + extra:
+                    if isinstance(n_, ast.Compare) and len(n_.ops) == 1 and isinstance(n_.ops[0], (ast.Eq, ast.NotEq)) \
+                            and isinstance(n_.comparators[0], ast.Constant) and isinstance(n_.comparators[0].value, str):
+                        lp = F.text_parts(n_.left)
+                        k = n_.comparators[0].value
+                        if lp and lp[0][0] == 'lit':
+                            lead = lp[0][1]
+                            can_equal = k.startswith(lead) if len(lp) > 1 else k == lead
+                            if not can_equal and (isinstance(n_.ops[0], ast.Eq)) == t:
+                                feasible = False
+                if not feasible:
+                    continue
+                n_tok += 1
+                for kind, text in parts:
+                    if kind == 'lit' and text not in ('=', '=='):
+                        bad_lits.add(text)
+                    if kind == 'expr' and not (text.startswith('ctx.') and text.endswith('.getText()')):
+                        bad_lits.add(text[:40])
         ctx.check(not bad_lits and n_tok > 0, 'R2', eb0.loc, eb0.qualname, 'barline-text-rewritten',
                   f'on every path the grammar allows, the barline text is "=" / "==" followed by pieces of the cell as written ({n_tok} paths)',
                   f'the barline token can receive the text {sorted(bad_lits)[:3]} that is not a piece of the cell: a barline type is '
